@@ -192,9 +192,21 @@ def zabs(z):
 _FL = z3.Function('fl', z3.RealSort(), z3.RealSort())
 
 
-def interval(t, bounds, depth=0):
+def interval(t, bounds, depth=0, memo=None):
     """Conservative interval (lo, hi) of a z3 arithmetic term as Fractions / None for unbounded, from the variable
-    bounds recorded by the engine."""
+    bounds recorded by the engine (memoised over the term DAG)."""
+    if memo is None:
+        memo = {}
+    key = t.get_id()
+    hit = memo.get(key)
+    if hit is not None:
+        return hit[1]
+    r = _interval(t, bounds, depth, memo)
+    memo[key] = (t, r)
+    return r
+
+
+def _interval(t, bounds, depth, memo):
     from fractions import Fraction as F
     INF = None
     if z3.is_int_value(t):
@@ -213,7 +225,7 @@ def interval(t, bounds, depth=0):
             return INF, INF
         return (F(b[0]) if b[0] is not None else INF), (F(b[1]) if b[1] is not None else INF)
     if k == z3.Z3_OP_TO_REAL or k == z3.Z3_OP_TO_INT:
-        lo, hi = interval(ch[0], bounds, depth + 1)
+        lo, hi = interval(ch[0], bounds, depth + 1, memo)
         if k == z3.Z3_OP_TO_INT:
             import math as _m
             return (F(_m.floor(lo)) if lo is not INF else INF), (F(_m.floor(hi)) if hi is not INF else INF)
@@ -221,32 +233,32 @@ def interval(t, bounds, depth=0):
     if k == z3.Z3_OP_ADD:
         lo, hi = F(0), F(0)
         for c in ch:
-            a, b = interval(c, bounds, depth + 1)
+            a, b = interval(c, bounds, depth + 1, memo)
             lo = INF if (lo is INF or a is INF) else lo + a
             hi = INF if (hi is INF or b is INF) else hi + b
         return lo, hi
     if k == z3.Z3_OP_SUB:
-        lo, hi = interval(ch[0], bounds, depth + 1)
+        lo, hi = interval(ch[0], bounds, depth + 1, memo)
         for c in ch[1:]:
-            a, b = interval(c, bounds, depth + 1)
+            a, b = interval(c, bounds, depth + 1, memo)
             lo = INF if (lo is INF or b is INF) else lo - b
             hi = INF if (hi is INF or a is INF) else hi - a
         return lo, hi
     if k == z3.Z3_OP_UMINUS:
-        a, b = interval(ch[0], bounds, depth + 1)
+        a, b = interval(ch[0], bounds, depth + 1, memo)
         return (INF if b is INF else -b), (INF if a is INF else -a)
     if k == z3.Z3_OP_MUL:
         lo, hi = F(1), F(1)
         for c in ch:
-            a, b = interval(c, bounds, depth + 1)
+            a, b = interval(c, bounds, depth + 1, memo)
             if a is INF or b is INF or lo is INF or hi is INF:
                 return INF, INF
             cands = [lo * a, lo * b, hi * a, hi * b]
             lo, hi = min(cands), max(cands)
         return lo, hi
     if k in (z3.Z3_OP_DIV, z3.Z3_OP_IDIV):
-        a, b = interval(ch[0], bounds, depth + 1)
-        c, d = interval(ch[1], bounds, depth + 1)
+        a, b = interval(ch[0], bounds, depth + 1, memo)
+        c, d = interval(ch[1], bounds, depth + 1, memo)
         if a is INF or b is INF or c is INF or d is INF or c != d or c == 0:
             return INF, INF
         x, y = a / c, b / c
@@ -256,18 +268,18 @@ def interval(t, bounds, depth=0):
             return F(_m.floor(lo)), F(_m.floor(hi))
         return lo, hi
     if k == z3.Z3_OP_MOD:
-        c, d = interval(ch[1], bounds, depth + 1)
+        c, d = interval(ch[1], bounds, depth + 1, memo)
         if c is not INF and c == d and c > 0:
             return F(0), c - 1
         return INF, INF
     if k == z3.Z3_OP_ITE:
-        a, b = interval(ch[1], bounds, depth + 1)
-        c, d = interval(ch[2], bounds, depth + 1)
+        a, b = interval(ch[1], bounds, depth + 1, memo)
+        c, d = interval(ch[2], bounds, depth + 1, memo)
         lo = INF if (a is INF or c is INF) else min(a, c)
         hi = INF if (b is INF or d is INF) else max(b, d)
         return lo, hi
     if k == z3.Z3_OP_UNINTERPRETED and t.decl().name() == 'fl':
-        a, b = interval(ch[0], bounds, depth + 1)
+        a, b = interval(ch[0], bounds, depth + 1, memo)
         if a is INF or b is INF:
             return INF, INF
         w = max(abs(a), abs(b)) / 2 ** 52
@@ -427,7 +439,7 @@ def int_truediv(x, y):
         if SymBool(z3.And(q <= TWO53, q >= -TWO53)):
             return SymFloat(iz=z3.simplify(q))
         return SymFloat(r=fl_of(z3.ToReal(q)))
-    return SymFloat(r=fl_of(z3.ToReal(x) / z3.ToReal(y)))
+    return SymFloat(quot=(x, y))
 
 
 def float_binop(op, a, b):
@@ -747,13 +759,34 @@ def concretize_int(x, lo, hi, what='value'):
 
 
 class SymFloat(object):
-    """A double.  iz: Int term when the value is an exactly-known integer; else r: Real term of its value."""
-    __slots__ = ('iz', 'r')
+    """A double.  iz: Int term when the value is an exactly-known integer; else r: Real term of its value.
+    quot=(x, y): the value is the correctly rounded quotient of the integers x / y (y != 0, not dividing x); its
+    Real term (an fl application) is only built when arithmetic or a comparison needs it, because floor / ceil /
+    trunc of such a quotient equal those of the exact rational whenever |x| < 2^53 (the rounding error
+    |x/y| 2^-53 is below 1/|y|, the distance of a non-integral x/y from the nearest integer)."""
+    __slots__ = ('iz', '_r', 'quot')
     __is_sym__ = True
 
-    def __init__(self, r=None, iz=None):
-        self.r = r
+    def __init__(self, r=None, iz=None, quot=None):
+        self._r = r
         self.iz = iz
+        self.quot = quot
+
+    @property
+    def r(self):
+        if self._r is None and self.quot is not None:
+            self._r = fl_of(z3.ToReal(self.quot[0]) / z3.ToReal(self.quot[1]))
+        return self._r
+
+    def _exact_quot(self):
+        """(x, y) if floor/ceil/trunc may be taken on the exact rational, else None"""
+        if self.quot is None:
+            return None
+        x, y = self.quot
+        lo, hi = interval(x, E.cur().bounds)
+        if lo is None or hi is None or max(abs(lo), abs(hi)) >= TWO53:
+            return None
+        return x, y
 
     def real(self):
         return z3.ToReal(self.iz) if self.iz is not None else self.r
@@ -832,14 +865,29 @@ class SymFloat(object):
 
     # exact operations on the value
     def __floor__(self):
-        return mkint(self.iz) if self.iz is not None else mkint(z3.ToInt(self.r))
+        if self.iz is not None:
+            return mkint(self.iz)
+        q = self._exact_quot()
+        if q is not None:
+            return mkint(fdiv(q[0], q[1]))
+        return mkint(z3.ToInt(self.r))
 
     def __ceil__(self):
-        return mkint(self.iz) if self.iz is not None else mkint(-z3.ToInt(-self.r))
+        if self.iz is not None:
+            return mkint(self.iz)
+        q = self._exact_quot()
+        if q is not None:
+            return mkint(-fdiv(-q[0], q[1]))
+        return mkint(-z3.ToInt(-self.r))
 
     def __trunc__(self):
         if self.iz is not None:
             return mkint(self.iz)
+        q = self._exact_quot()
+        if q is not None:
+            fl_, ce = fdiv(q[0], q[1]), -fdiv(-q[0], q[1])
+            neg = z3.Or(z3.And(q[0] < 0, q[1] > 0), z3.And(q[0] > 0, q[1] < 0))
+            return mkint(z3.simplify(z3.If(neg, ce, fl_)))
         return mkint(z3.If(self.r >= 0, z3.ToInt(self.r), -z3.ToInt(-self.r)))
 
     __int__ = None  # int() goes through the model in models.py
